@@ -11,6 +11,8 @@ package pubsub
 import (
 	"encoding/json"
 	"fmt"
+	"os"
+	"strconv"
 	"strings"
 )
 
@@ -116,6 +118,16 @@ func vfRunHistory(r *vfRun, cfg *vfExploreCfg, hist []string, judgeAll bool, lea
 	return
 }
 
+// vfSelfCheckEvery: besides the first five histories of a scenario, every n-th execution is run twice and the
+// two runs must agree on canonical state and observation (un-owned nondeterminism is a harness error).
+var vfSelfCheckEvery = func() int64 {
+	if s := os.Getenv("VF_SELFCHECK_EVERY"); s != "" {
+		n, _ := strconv.ParseInt(s, 10, 64)
+		return n
+	}
+	return 97
+}()
+
 // vfExplore runs the breadth-first search for one scenario.
 func vfExplore(r *vfRun, cfg *vfExploreCfg) {
 	seen := map[string]struct{}{}
@@ -186,8 +198,9 @@ func vfExplore(r *vfRun, cfg *vfExploreCfg) {
 					if len(r.res.Samples) < 3 && depth >= 2 {
 						r.sample(c)
 					}
-					if selfTests < 5 && depth >= 2 {
+					if (selfTests < 5 && depth >= 2) || (vfSelfCheckEvery > 0 && r.res.Executions%vfSelfCheckEvery == 0) {
 						selfTests++
+						r.count("determinism_selfchecks", 1)
 						canonB, obsB, _, _ := vfRunHistory(r, cfg, h, false, leaf)
 						if canonB != canon || obsB != obs {
 							r.harnessError("nondeterministic replay in scenario %s history %v:\n%s", cfg.Name, h, vfDiff(canon+"\n"+obs, canonB+"\n"+obsB))
